@@ -25,6 +25,7 @@ inductive Arm where
   | members                  -- union members
   | type
   | default                  -- the raw default value, left to String.CoerceOut
+  | defaultMixed             -- nil and string defaults raw, every other default as GraphQL text (`valueString`)
   | defaultText              -- (specification form, not in the source) the default encoded as GraphQL text
   | args
   | isDeprecated
